@@ -23,8 +23,8 @@ def run(ctx: Ctx):
     estprops.design(ctx)
     ctx.notes['design_invariants'] = ['Inv_C03_Runs (BaseStage)', 'Inv_C03 (Carver)', 'Inv_C03_Monotone (Estimator)']
     bc.pipeline(ctx, ['C03_'])
-    cc.carver_pipeline(ctx, 'C03_', n_random_quick=300, n_random_thorough=10000, exhaustive=(ctx.tier != 'quick'))
-    ec.run_kind(ctx, 'c03', ['C03_'], 220, 6000)
+    cc.carver_pipeline(ctx, 'C03_', n_random_quick=300, n_random_thorough=2500, exhaustive=(ctx.tier != 'quick'))
+    ec.run_kind(ctx, 'c03', ['C03_'], 220, 2000)
 
 
 def replay(ctx: Ctx, rep: dict):
